@@ -179,6 +179,17 @@ def rule_bits_prepend(ctx):
         f = c.method(nm)
         src = norm(f.node)
         ctx.ob('W.bits', f, 'joined bit length = len(prepend) + len(value)', 'setBitLength(len(prepend) + len(value))' in src, '')
+    # every way through the accumulator branch joins the bits of both operands
+    for nm in ('fromOctetString', 'fromBinaryString', 'fromHexString'):
+        f = c.method(nm)
+        res = f.params()[1]
+        for t in [x for x in walk_own(f.node) if isinstance(x, ast.If) and norm(x.test) in ('prepend is not None', 'not prepend is None')]:
+            for a in [x for b in t.body for x in ast.walk(b) if isinstance(x, ast.Assign) and norm(x.targets[0]) == res]:
+                txt = norm(a.value)
+                ok = ('<< len(%s) | %s' % (res, res)) in txt and ('setBitLength(len(prepend) + len(%s))' % res) in txt
+                ctx.ob('W.bits', f, 'accumulator branch: result = (prepend << len(segment)) | segment, length = sum', ok,
+                       '`%s = %s` on a path of the accumulator branch does not join both operands: the bits of a segment (e.g. '
+                       'one whose bits are all zero, which is falsy) are lost' % (res, txt[:80]) if not ok else 'joined', node=a)
     f = c.method('fromOctetString')
     ctx.ob('W.bits', f, 'unused bits are shifted out and subtracted from the length',
            'integer.from_bytes(value) >> padding' in norm(f.node) and 'len(value) * 8 - padding' in norm(f.node), '')
@@ -579,7 +590,7 @@ def rule_integer_octets(ctx):
         return (v if v >= 0 else ~v).bit_length() // 8 + 1
     bad = None
     try:
-        for v in list(range(-70000, 70001)) + [2 ** 31, -2 ** 31, 2 ** 31 - 1, -2 ** 31 - 1, -2 ** 63, 2 ** 63]:
+        for v in list(range(-33100, 33101)) + [s * 2 ** k + d for k in (23, 24, 31, 32, 63, 64) for s in (1, -1) for d in (-1, 0, 1)]:
             got = _eval_size_function(f, {'value': v, 'signed': True, 'length': 0})
             if got != ref(v):
                 bad = (v, got, ref(v))
@@ -588,7 +599,7 @@ def rule_integer_octets(ctx):
         raise AnalysisError('octet-count computation of %s is not a pure integer computation: %s' % (f.short, x))
     ctx.ob('W.int', f, 'signed values get the minimal number of two\'s complement octets', bad is None,
            'value %d is given %d content octets, the minimal two\'s complement form has %d (X.690 8.3.2): DER output is not '
-           'the distinguished encoding' % bad if bad else 'checked for -70000..70000 and the 2**31 / 2**63 boundaries', node=f.node)
+           'the distinguished encoding' % bad if bad else 'checked for -33100..33100 and around +-2**23, 2**24, 2**31, 2**32, 2**63, 2**64', node=f.node)
     # unsigned use by BIT STRING: ceil(max(bit_length, length) / 8)
     bad = None
     for L in range(0, 41):
